@@ -10,6 +10,7 @@ CONSTANTS
   MaxK = 2
   MaxF = 2
   CfgSpace <- SimCfgs
+  SimBias = TRUE
 CONSTRAINT Bound
 CHECK_DEADLOCK FALSE
 INVARIANT TypeOK
